@@ -1,18 +1,21 @@
 (* C14 -- ignore-file discovery finds exactly the applicable files and prunes ignored dirs.
-   PARTIAL: proved for the stack-machine model are the exact shape / tagging of every returned file, the
-   find_file rule and the explicit-watch relation, and pruning: once a directory has been skipped nothing from it or
-   from anywhere below it is returned afterwards, for every file system with absolute paths and every state the walk
-   reaches.  Completeness (every non-pruned directory is visited) and the independence from the listing order are checked by
-   the correspondence run (two listing orders + the real crate), see DESIGN.md.
-   Proofs: Discover/DiscoverProofs.v, Discover/DiscoverPrune.v *)
+   Proved for the stack-machine model: the exact shape / tagging of every returned file, the find_file rule and the explicit-watch
+   relation; pruning is permanent (once a directory has been skipped nothing from it or below it is returned afterwards);
+   completeness (every directory reachable from the origin through directories is visited -- each of its existing non-empty
+   .ignore / .gitignore / .hgignore files is returned -- or lies in or below a pruned directory, and a directory is pruned only
+   because it is a VCS metadata directory, unrelated to the explicit watches, or ignored by the filter the walk had built by
+   then); termination within the fuel from_origin provides; all for every file system listing with absolute, distinct paths.
+   PARTIAL: independence from the listing order is checked by the correspondence run (two listing orders + the real crate),
+   not proved, see DESIGN.md.
+   Proofs: Discover/DiscoverProofs.v, Discover/DiscoverPrune.v, Discover/DiscoverComplete.v *)
 From Coq Require Import List NArith String Ascii Bool.
-From WX Require Import Base.Bytes Glob.Glob Glob.Gitignore Ignore.IgnoreFilter Gen.Origins_gen Discover.Discover Discover.DiscoverProofs Discover.DiscoverPrune Ignore.IgnoreEquiv.
+From WX Require Import Base.Bytes Glob.Glob Glob.Gitignore Ignore.IgnoreFilter Gen.Origins_gen Discover.Discover Discover.DiscoverProofs Discover.DiscoverPrune Discover.DiscoverComplete Ignore.IgnoreEquiv.
 Import ListNotations.
 Open Scope string_scope.
 Open Scope list_scope.
 
-Theorem C14_discovered_files_exact_partial : forall gm content hard fs origin watches explicit excludes f,
-  In f (from_origin gm content hard fs origin watches explicit excludes) ->
+Theorem C14_discovered_files_exact_partial : forall gm content hard defer orig fs origin watches explicit excludes f,
+  In f (from_origin gm content hard defer orig fs origin watches explicit excludes) ->
   (exists p, In p explicit /\ f = mkDf p (Some origin) None) \/
   (exists e, excludes = Some e /\ find_file fs e = true /\ f = mkDf e None (Some PT_Git)) \/
   (exists name t, In (name, t) origin_files /\ find_file fs (join origin name) = true /\
@@ -40,38 +43,93 @@ Example C14_example :
              ("/o/test/sub/.hgignore", KFile false); ("/o/.git", KDir); ("/o/.git/.gitignore", KFile true);
              ("/o/tests/.git", KDir); ("/o/tests/.git/.gitignore", KFile true)] in
   let content := fun p : string => if String.eqb p "/o/.gitignore" then ["test/"] else ["x"] in
-  map show_dfile (from_origin gm_glob content true fs "/o" [] [] None)
+  map show_dfile (from_origin gm_glob content true true true fs "/o" [] [] None)
   = ["/o/.gitignore|/o|Git"; "/o/tests/.gitignore|/o/tests|Git"].
 Proof. vm_compute. reflexivity. Qed.
 
 (* pruning is permanent: from any state of the walk, nothing is returned later from a skipped directory or below it *)
-Theorem C14_pruned_stays_out : forall gm content hard fs base watches,
+Theorem C14_pruned_stays_out : forall gm content hard defer orig fs base watches,
   (forall e, In e fs -> absolute (fst e)) ->
   forall n t, PInv t ->
-  forall f, In f (t_files (run gm content hard n fs base watches t)) ->
+  forall f, In f (t_files (run gm content hard defer orig n fs base watches t)) ->
   In f (t_files t) \/ exists d, d_in f = Some d /\ forall p, In p (t_skip t) -> is_under p d = false.
 Proof. exact pruned_stays_out. Qed.
 Print Assumptions C14_pruned_stays_out.
 
 (* ... and every state the walk of from_origin reaches is such a state *)
-Theorem C14_walk_states_have_the_invariant : forall gm content hard fs base watches,
+Theorem C14_walk_states_have_the_invariant : forall gm content hard defer orig fs base watches,
   (forall e, In e fs -> absolute (fst e)) -> absolute base ->
-  forall n filt files, PInv (run gm content hard n fs base watches (mkT [base] [] filt files)).
-Proof. intros gm content hard fs base watches Hfs Hb n filt files. apply run_pinv; [exact Hfs | apply init_pinv; exact Hb]. Qed.
+  forall n filt files, PInv (run gm content hard defer orig n fs base watches (mkT [base] [] filt files)).
+Proof. intros gm content hard defer orig fs base watches Hfs Hb n filt files. apply run_pinv; [exact Hfs | apply init_pinv; exact Hb]. Qed.
 Print Assumptions C14_walk_states_have_the_invariant.
 
 (* VCS metadata directories (repaired code): the walk never puts one on its stack, so no returned file lives in one, whatever
    the ignore files say -- in particular whatever negated patterns on parent directories say *)
-Theorem C14_vcs_dirs_never_entered : forall gm content fs base watches n t,
+Theorem C14_vcs_dirs_never_entered : forall gm content defer orig fs base watches n t,
   NV base t ->
-  forall f, In f (t_files (run gm content true n fs base watches t)) ->
+  forall f, In f (t_files (run gm content true defer orig n fs base watches t)) ->
   In f (t_files t) \/ exists d, d_in f = Some d /\ (d = base \/ vcs_dir d = false).
 Proof. exact vcs_dirs_never_entered. Qed.
 Print Assumptions C14_vcs_dirs_never_entered.
 
 (* as pinned, a negated pattern on a parent directory re-included the VCS directory *)
 Theorem C14_vcs_dir_entered_refuted :
-  map show_dfile (from_origin gm_glob wcontent false wfs "/o" [] [] None) = ["/o/test2/.gitignore|/o/test2|Git"; "/o/test2/test/.hg/.ignore|/o/test2/test/.hg|-"] /\
-  map show_dfile (from_origin gm_glob wcontent true wfs "/o" [] [] None) = ["/o/test2/.gitignore|/o/test2|Git"].
+  map show_dfile (from_origin gm_glob wcontent false false false wfs "/o" [] [] None) = ["/o/test2/.gitignore|/o/test2|Git"; "/o/test2/test/.hg/.ignore|/o/test2/test/.hg|-"] /\
+  map show_dfile (from_origin gm_glob wcontent true false false wfs "/o" [] [] None) = ["/o/test2/.gitignore|/o/test2|Git"].
 Proof. exact vcs_dir_entered_refuted. Qed.
 Print Assumptions C14_vcs_dir_entered_refuted.
+
+(* completeness (repaired code): every directory that can be reached from the origin through directories is visited -- all of its
+   ignore files that exist and are non-empty are returned, tagged with it -- or it lies in or below a directory the walk pruned,
+   and that directory is a VCS metadata directory, unrelated to the explicit watches, or was ignored, when it was about to be
+   visited, by the filter of a state of the walk in which every directory above it had been visited (so that filter held every
+   ignore file above it: C14_walk_filter_is_the_discovered_files) *)
+Theorem C14_every_reachable_directory_visited_or_pruned : forall gm content fs origin watches explicit excludes,
+  (forall e, In e fs -> absolute (fst e)) -> absolute origin -> NoDup (map fst fs) ->
+  forall d, rdir fs origin d ->
+    (forall nt, In nt dir_files -> find_file fs (join d (fst nt)) = true ->
+       In (mkDf (join d (fst nt)) (Some d) (snd nt)) (from_origin gm content true true true fs origin watches explicit excludes)) \/
+    (exists p, is_under p d = true /\
+       (vcs_dir p = true \/ watch_related watches p = false \/
+        exists t0, reach gm content true true true fs origin watches (fo_init content fs origin explicit excludes) t0 /\
+                   check_dir gm true (t_filter t0) p = false /\ p <> origin /\
+                   forall a, rdir fs origin a -> is_under a p = true -> a <> p -> Done fs t0 a)).
+Proof. exact from_origin_complete_repaired. Qed.
+Print Assumptions C14_every_reachable_directory_visited_or_pruned.
+
+(* the filter of every state of the walk is the initial filter plus the ignore files discovered so far, in order *)
+Theorem C14_walk_filter_is_the_discovered_files : forall gm content hard defer orig fs base watches init t,
+  reach gm content hard defer orig fs base watches init t ->
+  exists l, t_files t = t_files init ++ l /\ t_filter t = fold_left add_file (map (as_ifile content) l) (t_filter init).
+Proof. exact reach_filter. Qed.
+Print Assumptions C14_walk_filter_is_the_discovered_files.
+
+(* as pinned, a negated pattern in the ignore file next to a directory could not re-include it *)
+Theorem C14_negated_child_missed_refuted :
+  map show_dfile (from_origin gm_glob ncontent true false false nfs "/o" [] [] None) = ["/o/.gitignore|/o|Git"; "/o/sub/.gitignore|/o/sub|Git"] /\
+  map show_dfile (from_origin gm_glob ncontent true true false nfs "/o" [] [] None)
+  = ["/o/.gitignore|/o|Git"; "/o/sub/.gitignore|/o/sub|Git"; "/o/sub/c/.gitignore|/o/sub/c|Git"] /\
+  check_dir gm_glob true (filter_new "/o" (map (as_ifile ncontent) [mkDf "/o/.gitignore" (Some "/o") (Some PT_Git); mkDf "/o/sub/.gitignore" (Some "/o/sub") (Some PT_Git)])) "/o/sub/c" = true.
+Proof. exact negated_child_missed_refuted. Qed.
+Print Assumptions C14_negated_child_missed_refuted.
+
+(* the walk's stack has run empty when from_origin stops it *)
+Theorem C14_walk_terminates : forall gm content hard defer orig fs origin watches explicit excludes,
+  (forall e, In e fs -> absolute (fst e)) -> absolute origin -> NoDup (map fst fs) ->
+  t_visit (run gm content hard defer orig (S (List.length fs)) fs origin watches (fo_init content fs origin explicit excludes)) = [] /\
+  from_origin gm content hard defer orig fs origin watches explicit excludes
+  = t_files (run gm content hard defer orig (S (List.length fs)) fs origin watches (fo_init content fs origin explicit excludes)).
+Proof. intros gm content hard defer orig fs origin watches explicit excludes H1 H2 H3. split; [apply from_origin_walk_ends; assumption | apply from_origin_walk]. Qed.
+Print Assumptions C14_walk_terminates.
+
+Example C14_completeness_hypotheses_met :
+  (forall e, In e ex_fs -> absolute (fst e)) /\ NoDup (map fst ex_fs) /\ rdir ex_fs "/o" "/o/tests" /\ rdir ex_fs "/o" "/o/test/sub".
+Proof. exact ex_fs_wellformed. Qed.
+
+(* as pinned, a lone `*` in an origin-level ignore file pruned the origin itself *)
+Theorem C14_origin_pruned_refuted :
+  map show_dfile (from_origin gm_glob ocontent true true false ofs "/o" [] [] None) = ["/o/.git/info/exclude|/o|Git"] /\
+  map show_dfile (from_origin gm_glob ocontent true true true ofs "/o" [] [] None)
+  = ["/o/.git/info/exclude|/o|Git"; "/o/.gitignore|/o|Git"; "/o/src/.ignore|/o/src|-"].
+Proof. exact origin_pruned_refuted. Qed.
+Print Assumptions C14_origin_pruned_refuted.
